@@ -363,17 +363,29 @@ Proof.
   split; [apply given_stage; [apply validate_rinput|auto] | now apply I_validate].
 Qed.
 
+Lemma restore_rxn a b : rxn (restore OR a b) = rxn b \/ rxn (restore OR a b) = rxn a.
+Proof. unfold restore. destruct (_ && _); [right; destruct b; reflexivity|left; reflexivity]. Qed.
+Lemma rinput_restore a b : rinput (restore OR a b) = rinput b.
+Proof. unfold restore. destruct (_ && _); [destruct b; reflexivity|reflexivity]. Qed.
+Lemma I_restore a b : I a -> I b -> I (restore OR a b).
+Proof. intros Ia Ib. unfold I. destruct (restore_rxn a b) as [E|E]; rewrite E; auto. Qed.
+
 (* rows that the reagent post-processing leaves alone: only whole components are appended *)
 Theorem F_ext_no_pp r : given r -> I r -> post_process OR (before_pp r) = before_pp r -> given (F r) /\ I (F r).
 Proof.
   intros G0 I0 NP. rewrite F_split, NP. destruct (before_pp_ext r G0 I0) as [G1 I1].
   assert (G2 : given (rb_row (before_pp r))) by (apply given_stage; [apply rinput_rb_row|auto]).
-  split; [apply given_stage; [apply validate_rinput|auto] | apply I_validate; auto; now apply I_rb_row].
+  assert (G3 : given (restore OR (before_pp r) (rb_row (before_pp r)))) by (unfold given; now rewrite rinput_restore).
+  split; [apply given_stage; [apply validate_rinput|auto] | apply I_validate; auto; apply I_restore; auto; now apply I_rb_row].
 Qed.
+(* whatever the post-processing did: if the row fell back to the reaction it carried before, that reaction
+   extends the given sides *)
+Lemma before_pp_I r : given r -> I r -> I (before_pp r).
+Proof. intros G0 I0. now destruct (before_pp_ext r G0 I0). Qed.
 End Rows.
 
 (* rows rewritten by the reagent post-processing to c = cl>>cp: afterwards only whole components are
-   appended to c, or the row is reset to its input *)
+   appended to c, or the row falls back to the reaction it carried before, or it is reset to its input *)
 Section PP.
 Variable OR : oracles.
 Variable db : list rule.
@@ -381,14 +393,16 @@ Variable ban : list string.
 Variable fuel : nat.
 Hypothesis db_clean : forall r, In r db -> clean_str (rsmiles r) = true.
 Theorem F_ext_pp r cl cp : guard cl cp -> rxn (post_process OR (before_pp OR db ban fuel r)) = cl ++ ">>" ++ cp ->
-  ext cl cp (rxn (F OR db ban fuel r)) \/ rxn (F OR db ban fuel r) = rinput (F OR db ban fuel r).
+  ext cl cp (rxn (F OR db ban fuel r)) \/ rxn (F OR db ban fuel r) = rinput (F OR db ban fuel r) \/
+  rxn (F OR db ban fuel r) = rxn (before_pp OR db ban fuel r).
 Proof.
-  intros G E. rewrite F_split. set (x := post_process OR _) in *.
+  intros G E. rewrite F_split. set (b := before_pp OR db ban fuel r) in *. set (x := post_process OR b) in *.
   assert (I0 : I cl cp x) by (exists cl, cp; split; auto; now apply sides_refl).
   pose proof (I_rb_row OR db ban fuel db_clean cl cp G x I0) as I1.
-  destruct (validate_rxn OR M_MCS true true (Some FINAL_MSG) (RowLocal.rb_row OR db ban fuel x)) as [H|H].
-  - left. rewrite H. exact I1.
-  - right. rewrite H. now rewrite validate_rinput.
+  set (y := restore OR b (RowLocal.rb_row OR db ban fuel x)).
+  destruct (validate_rxn OR M_MCS true true (Some FINAL_MSG) y) as [H|H].
+  - rewrite H. destruct (restore_rxn OR b (RowLocal.rb_row OR db ban fuel x)) as [K|K]; fold y in K; rewrite K; auto.
+  - right. left. rewrite H. now rewrite validate_rinput.
 Qed.
 End PP.
 
@@ -418,7 +432,7 @@ Theorem run_only_appends t tmsg ins rows st :
      (post_process OR (entering_pp s) = entering_pp s -> appended gl gp (rxn r)) /\
      (* rows it rewrites to cl>>cp *)
      (forall cl cp, guard cl cp -> rxn (post_process OR (entering_pp s)) = cl ++ ">>" ++ cp ->
-        appended cl cp (rxn r) \/ rxn r = s))
+        appended cl cp (rxn r) \/ rxn r = s \/ appended gl gp (rxn r)))
     (admitted OR ins) rows.
 Proof.
   intros H. pose proof (run_rows_are_alone_results OR db ban fuel t tmsg ins rows st H) as A.
@@ -428,7 +442,7 @@ Proof.
   assert (G0 : given gl gp (fresh 0 s)) by (unfold given; simpl; exact Es).
   assert (I0 : I gl gp (fresh 0 s)) by (unfold I; simpl; rewrite Es; exists gl, gp; split; auto; now apply sides_refl).
   assert (RI : rinput (F OR db ban fuel (fresh 0 s)) = s).
-  { rewrite F_split. rewrite validate_rinput, rinput_rb_row.
+  { rewrite F_split. rewrite validate_rinput, rinput_restore, rinput_rb_row.
     assert (RP : forall x, rinput (post_process OR x) = rinput x).
     { intros x. unfold post_process. destruct (sby x) as [m|]; auto. destruct (String.eqb m M_INPUT); auto.
       destruct (pp OR (rxn x)); auto. }
@@ -437,8 +451,10 @@ Proof.
   split; [congruence|]. split.
   - intros NP. destruct (F_ext_no_pp OR db ban fuel db_clean impute_clean gl gp G (fresh 0 s) G0 I0 NP) as [_ K].
     apply ext_appended. rewrite Y1, X1. exact K.
-  - intros cl cp Gc Ec. destruct (F_ext_pp OR db ban fuel db_clean (fresh 0 s) cl cp Gc Ec) as [K|K].
+  - intros cl cp Gc Ec. destruct (F_ext_pp OR db ban fuel db_clean (fresh 0 s) cl cp Gc Ec) as [K|[K|K]].
     + left. apply ext_appended. rewrite Y1, X1. exact K.
-    + right. rewrite Y1, X1, K. exact RI.
+    + right. left. rewrite Y1, X1, K. exact RI.
+    + right. right. apply ext_appended. rewrite Y1, X1, K.
+      exact (before_pp_I OR db ban fuel db_clean impute_clean gl gp G (fresh 0 s) G0 I0).
 Qed.
 End Runs.
